@@ -442,6 +442,32 @@ def correspond(ctx):
     dist["ECDSA tokens signed outside the library, s and n - s"] = len(ireq)
     st["evaluations"] += len(ireq)
 
+    # ---- D2: RSA keys whose modulus length is NOT a multiple of 8 bits (2050, 2052): signatures have ceil(bits/8) octets;
+    #          jose's RS256 product is checked by python (EMSA-PKCS1-v1_5), jose verifies its own RS/PS products and python's
+    import pyrsa
+    oddkeys = [k for k in G.gen_keys(bdir, [{"kty": "RSA", "bits": b} for b in ((2050,) if ctx["tier"] == "quick" else (2050, 2052, 2060))]) if k]
+    for k in oddkeys:
+        k = G.strip_meta(k)
+        ki = {m: int.from_bytes(G.unb64(k[m]), "big") for m in ("n", "e", "d")}
+        bits = ki["n"].bit_length()
+        for alg, hn in (("RS256", "sha256"), ("PS256", "sha256"), ("RS512", "sha512")):
+            o = G.harness(bdir, ["jwssig\t%s\t%s\t%s" % (G.dumps({"payload": G.b64(b"odd modulus")}), G.dumps({"protected": {"alg": alg}}), G.dumps(k))])[0]
+            if not o.startswith("{"):
+                rep.violation("odd-modulus:sign-failed:" + alg, "jose_jws_sig fails with a %d-bit RSA key: %s" % (bits, o[:60]), {"key_bits": bits})
+                continue
+            tok = json.loads(o)
+            sgb = G.unb64(tok["signature"])
+            msg = (tok["protected"] + "." + tok["payload"]).encode()
+            if alg.startswith("RS") and not pyrsa.pkcs1_v15_verify(ki, hn, msg, sgb):
+                rep.violation("odd-modulus:product-invalid:" + alg, "the %s signature jose makes with a %d-bit RSA key (%d octets) is not a valid RSASSA-PKCS1-v1_5 signature" % (alg, bits, len(sgb)), {"token": o[:600]})
+            theirs = dict(tok, signature=G.b64(pyec.rsa_pkcs1_sign(ki, hn, msg) if alg.startswith("RS") else pyrsa.pss_sign(ki, hn, msg, hashlib.new(hn).digest_size)))
+            vv = ["jwsver\t%s\t-\t%s\t0" % (o, G.dumps(k)), "jwsver\t%s\t-\t%s\t0" % (o, G.dumps(G.pub_of(k))), "jwsver\t%s\t-\t%s\t0" % (G.dumps(theirs), G.dumps(G.pub_of(k)))]
+            for c_, r_, who in zip(vv, G.harness(bdir, vv), ("its own token under the private key", "its own token under the public half", "the token made outside the library")):
+                st["evaluations"] += 1
+                if r_ != "T":
+                    rep.violation("odd-modulus:verify-rejects:" + alg, "%s with a %d-bit RSA key: jose does not verify %s (%s)" % (alg, bits, who, r_[:20]), {"case": c_[:3000]})
+    dist["RSA keys whose modulus is not a whole number of octets"] = len(oddkeys)
+
     # ---- D: jose's public-key products verified by the BigZ model; E: BigZ products verified by jose
     keys = G.standard_keys(bdir)
     req, meta = [], []
